@@ -599,6 +599,11 @@ func (a *Array) PopIterate(fn ArrayPopIterationFunc) error {
 		inlined:   inlined,
 	}
 
+	// All elements are removed, so no mutable element is tracked anymore.
+	// Stale entries would otherwise be shifted (and rejected as out of
+	// range) by later inserts and removals.
+	a.mutableElementIndex = nil
+
 	// Save root slab
 	if !a.Inlined() {
 		err = storeSlab(a.Storage, a.root)
